@@ -125,6 +125,20 @@ static const ares_nameoffset_t *ares_nameoffset_find(ares_llist_t *list,
       continue;
     }
 
+    /* An escaped "." is label data, not a separator: "a\.example.com" is the
+     * two labels "a.example" and "com".  The dot is escaped when preceded by
+     * an odd number of backslashes. */
+    if (prefix_len != 0) {
+      size_t nslash = 0;
+      while (prefix_len - 1 > nslash &&
+             name[prefix_len - 2 - nslash] == '\\') {
+        nslash++;
+      }
+      if (nslash % 2 == 1) {
+        continue;
+      }
+    }
+
     longest_match = val;
   }
 
